@@ -539,5 +539,31 @@ def shard_fees(ctx: Ctx) -> None:
             if o[0] == "ok" and o[1].sats_per_vbyte * 1000 != o[1].sats_per_kvbyte:
                 ctx.violation("fee-rate-conversion-inexact", f"sats_per_vbyte property {o[1].sats_per_vbyte} vs {o[1].sats_per_kvbyte}/1000", {"txt": txt})
             ctx.case("fees:rate-conversion", ("r", txt))
+
+    # ---- the caller's decimal context is not an argument: with fewer digits than an amount has, a conversion may be
+    # refused (any exception) but never answered inexactly. The truth is integer arithmetic on the digits.
+    import decimal
+    from btclib.tx import TxOut
+
+    texts = ["0.00000001", "1.00000001", "12.34567891", "1234.56789012", "20999999.99999999", "21000000", "0.12345678", "99999.99999999",
+             "1000000.00000001", "7", "0.5"] + [f"{r.randrange(MAX_SATS) / 10**8:.8f}" for _ in range(12)]
+    for prec in (28, 20, 16, 15, 12, 9, 8, 6, 4):
+        for txt in texts:
+            whole, _, frac = txt.partition(".")
+            want = int(whole) * 10**8 + int((frac + "0" * 8)[:8])
+            with decimal.localcontext() as dctx:
+                dctx.prec = prec
+                d = Decimal(txt)
+                calls = [("sats_from_btc", lambda: am.sats_from_btc(d)), ("TxOut.from_dict", lambda: TxOut.from_dict({"value": txt, "scriptPubKey": "51"}).value),
+                         ("sats_from_btc(str)", lambda: am.sats_from_btc(txt))]
+                for name, call in calls:
+                    o = outcome(call)
+                    ctx.case("amount:decimal-context", ("ctx", prec, txt, name))
+                    ctx.stats["amount:decimal-context"] += 1
+                    if o[0] == "ok" and o[1] != want:
+                        ctx.violation(f"sats-btc-conversion-inexact:decimal-context:{name}",
+                                      f"{name}({txt}) under decimal precision {prec} -> {o[1]!r}, the digits say {want}", {"text": txt, "prec": prec})
+                    elif o[0] == "raise":
+                        ctx.stats["amount:decimal-context:refused"] += 1
     reach.stop()
     reach.report(ctx)
